@@ -642,12 +642,14 @@ impl Gen {
 /// Pick a configuration (N, cap): weighted toward small N and small capacities.
 pub fn pick_config(rng: &mut Rng) -> (usize, usize) {
     let n = *rng.pick(&[1usize, 1, 2, 2, 3, 3, 4, 4, 4, 5, 6, 7, 8, 8, 9, 10, 11, 12, 13, 14, 15, 16, 16, 16]);
-    let cap = match rng.below(11) {
+    let cap = match rng.below(12) {
         0 => rng.range(2, 5),
         1..=6 => rng.range(6, 40),
         7..=8 => rng.range(41, 120),
         9 => rng.range(121, 255),
-        _ => 256,
+        10 => 256,
+        // beyond the capacity every unit test uses
+        _ => *rng.pick(&[257usize, 300, 512, 513, 600]),
     };
     (n, cap)
 }
